@@ -1022,6 +1022,9 @@ def run(ctx, report):
     R15 = report.rule('C04.D15', 'one iteration of a repeated string instruction takes 1 from the count register the address size selects; F2 and F3 repeat every string instruction and nothing else (shared with C08.D7)', floor=6)
     from .c08 import rep_count_rule
     rep_count_rule(ctx, R15)
+    R16 = report.rule('C04.D16', 'lifting is a function of the instruction: no function of the lifter mutates a module-level table or a local bound to one (shared with C12.D7)', floor=250)
+    from .c12 import shared_table_rule
+    shared_table_rule(R16, [ctx.mod('ia32_sem'), ctx.mod('emul_helper')])
     R11 = report.rule('C04.D11', 'xchg / xadd on two parts of one register (al, ah) write both parts (lifted assignments evaluated)', floor=4)
     same_register_parts_rule(ctx, R11, L, sem)
     report.analysed['effects_ref_mnemonics'] = len(eff)
